@@ -110,12 +110,18 @@ func judge(w *world, rq *request, c *reqCtx, code int, base backend.BasePayloadR
 			if rc != backend.UnknownDevEUI {
 				simrt.Report("j2.unknown-deveui:"+kindName, fmt.Sprintf("request for an unknown DevEUI answered %s (%s)", rc, base.Result.Description))
 			}
-		case storageErr || c.overflow || badKEK || rxBad:
-			// the narrow relaxation: this request may fail, with any non-Success code
+		case storageErr:
+			// the narrow relaxation: storage failed for this request, it may
+			// fail with any non-Success code
 		case rq.badMIC && rq.kind == 0:
+			// the device is known and its keys were served: a wrong MIC is
+			// MICFailed whatever else is wrong with the request
 			if rc != backend.MICFailed {
-				simrt.Report("j2.micfailed", fmt.Sprintf("join-request with a wrong MIC answered %s (%s)", rc, base.Result.Description))
+				simrt.Report("j2.micfailed", fmt.Sprintf("join-request with a wrong MIC answered %s (%s); rxdelay=%d nonce-overflow=%v", rc, base.Result.Description, rq.rxDelay, c.overflow))
 			}
+		case c.overflow || badKEK || rxBad:
+			// the narrow relaxation: this request cannot be answered with
+			// Success (nonce does not fit, KEK unusable, RxDelay does not fit)
 		default:
 			sig := "j1.rejected:" + kindName
 			if live {
